@@ -344,6 +344,39 @@ classes:
 			}
 		}
 	}
+	// cross family (cross.go): every construct next to every other under all 16 flag sets: one
+	// method per block with exactly the labels of its scope (structural check on every case), a
+	// systematic part really compiled, vetted and initialised
+	{
+		cn := 2
+		if c.Thorough() {
+			cn = 3
+		}
+		k := 0
+		quota = len(batch) + 5 // (five more packages per shard for this family)
+		for size := 1; size <= cn; size++ {
+			for _, body := range crossBodies(size) {
+				idx++
+				if !c.Mine(idx) {
+					continue
+				}
+				if c.Expired("cross family") {
+					break
+				}
+				hasR := false
+				for _, r := range peg.RefsOf(body) {
+					hasR = hasR || r == "R"
+				}
+				for _, gen := range gens16 {
+					if gen.LeftRec && !hasR {
+						continue
+					}
+					k++
+					structural(crossGrammar(body, gen.LeftRec), gen, "cross family", k%37 == 1)
+				}
+			}
+		}
+	}
 	for _, b := range batch {
 		c.Res.Samples = append(c.Res.Samples, nil)[:len(c.Res.Samples)]
 		c.Res.Conf = append(c.Res.Conf, ConfCase{Text: b.Text, Why: "c04:" + b.Why, Gen: core.Gen{AltEntry: b.Argv}})
